@@ -114,6 +114,25 @@ func listingOf(id string, r lint.Registry, text []byte) ev.M {
 		"allSourcesKnown": allKnown, "distinctNames": len(names)}
 }
 
+// failingWriter accepts `left` bytes and then fails (or, with short, reports a short write without an error).
+type failingWriter struct {
+	left  int
+	short bool
+}
+
+func (f *failingWriter) Write(p []byte) (int, error) {
+	if len(p) <= f.left {
+		f.left -= len(p)
+		return len(p), nil
+	}
+	n := f.left
+	f.left = 0
+	if f.short {
+		return n, nil
+	}
+	return n, fmt.Errorf("write: broken pipe")
+}
+
 // cmdCodec: C14.
 func cmdCodec(args []string) {
 	parseFlags(args)
@@ -216,6 +235,19 @@ func cmdCodec(args []string) {
 		{ExcludeSources: lint.SourceList{lint.CABFBaselineRequirements}}, {IncludeSources: lint.SourceList{lint.RFC6960}}} {
 		if r, err := g.Filter(o); err == nil {
 			w.Emit(listing(fmt.Sprintf("filtered%d", i), r))
+		}
+	}
+	// a listing that was cut off (a writer that fails or writes short, as a closed pipe does) must not leak into the next one
+	for round, cut := range []int{300, 1, 4097, 70000, 300} {
+		for _, short := range []bool{false, true} {
+			func() {
+				defer func() { recover() }()
+				g.WriteJSON(&failingWriter{left: cut, short: short})
+			}()
+			w.Emit(listing(fmt.Sprintf("global-after-a-listing-cut-at-%d-short=%v-round%d", cut, short, round), g))
+			if r2 != nil {
+				w.Emit(listing(fmt.Sprintf("filtered-after-a-listing-cut-at-%d-short=%v-round%d", cut, short, round), r2))
+			}
 		}
 	}
 	// ---- the tool's own JSON: what it prints for an object must decode to what the library computed (details with awkward
